@@ -19,6 +19,7 @@ import (
 	"verif/internal/gen"
 	"verif/internal/mon"
 	"verif/internal/prng"
+	"verif/internal/refcodec"
 )
 
 // C20 — ordinals sale/bid flows yield valid transactions protecting seller and buyer.
@@ -50,6 +51,8 @@ type c20Flow struct {
 	OrdTail []mon.Hex `json:"ord_op_return_items,omitempty"`
 	// OrdDataLen: payload size of the inscribed ordinal (0 = the 13-byte default)
 	OrdDataLen int `json:"ord_payload_len,omitempty"`
+	// OrdWide: the ordinal's inscription uses a wider push form than necessary for its content type (legal, and part of the script code)
+	OrdWide bool `json:"ord_wide_push,omitempty"`
 	// ExtraUTXOs: values of extra seller coins offered to the two-dummy bid acceptance (AcceptBid2DArgs.ExtraUTXOs)
 	ExtraUTXOs []uint64 `json:"extra_seller_utxos,omitempty"`
 }
@@ -59,6 +62,7 @@ type c20Inscr struct {
 	Data        mon.Hex `json:"data"`
 	Key         mon.Hex `json:"key"`
 	OpReturn    bool    `json:"op_return_tail"`
+	TailLens    []int   `json:"op_return_item_lens,omitempty"` // lengths of the enriched OP_RETURN items (overrides the default two-item tail)
 }
 
 func p2pkhOf(priv *bec.PrivateKey) *bscript.Script {
@@ -111,6 +115,15 @@ func c20JudgeFlow(c *mon.Ctx, f *c20Flow) {
 			return
 		}
 		ordScript = t.Outputs[0].LockingScript
+		if f.OrdWide { // re-encode the content-type push as OP_PUSHDATA2
+			ct := []byte("text/plain;charset=utf-8")
+			min := gen.Push(ct)
+			if i := bytes.Index(*ordScript, min); i > 0 {
+				wide, _ := refcodec.PushWith(0x4d, ct)
+				re := append(append(append([]byte{}, (*ordScript)[:i]...), wide...), (*ordScript)[i+len(min):]...)
+				ordScript = bscript.NewFromBytes(re)
+			}
+		}
 	}
 	var sellerUnlocker bt.Unlocker = &unlocker.Simple{PrivateKey: seller}
 	var buyerUnlocker bt.Unlocker = &unlocker.Simple{PrivateKey: buyer}
@@ -321,6 +334,12 @@ func c20JudgeInscr(c *mon.Ctx, in *c20Inscr) {
 	args := &bscript.InscriptionArgs{LockingScriptPrefix: bscript.NewFromBytes(append([]byte{}, *prefix...)), Data: append([]byte{}, in.Data...), ContentType: in.ContentType}
 	if in.OpReturn {
 		args.EnrichedArgs = &bscript.EnrichedInscriptionArgs{OpReturnData: [][]byte{[]byte("tail"), {1, 2}}}
+		if len(in.TailLens) > 0 {
+			args.EnrichedArgs.OpReturnData = nil
+			for i, l := range in.TailLens {
+				args.EnrichedArgs.OpReturnData = append(args.EnrichedArgs.OpReturnData, bytes.Repeat([]byte{byte(0x30 + i)}, l))
+			}
+		}
 	}
 	var err error
 	if !c.Try("bt.(*Tx).Inscribe", func() { err = tx.Inscribe(args) }) {
@@ -409,6 +428,7 @@ func init() {
 				f.SellerLen = prng.Pick(r, []int{1, 26, 35, 71, 105, 300})
 			}
 			f.FundShare = prng.Pick(r, []int{0, 0, 0, 1, 2, 3})
+			f.OrdWide = f.OrdInscr && r.Chance(1, 4)
 			if f.OrdInscr && r.Chance(1, 5) { // inscriptions around and beyond the pre-Genesis script size limit
 				f.OrdDataLen = prng.Pick(r, []int{600, 9000, 9990, 12000, 70000})
 			}
@@ -489,6 +509,24 @@ func init() {
 					k[0] &= 0x7f
 					inscr(c, &c20Inscr{ContentType: string(ctb), Data: r.Bytes(dl), Key: k, OpReturn: tail})
 				}
+			}
+		}
+		c.Phase("inscriptions-tail-items") // enriched inscriptions whose OP_RETURN items sit on the push-form boundaries, the last one included
+		n = 0
+		for _, last := range []int{1, 75, 76, 255, 256, 65535, 65536, 70000} {
+			for _, first := range []int{0, 1, 76, 65536} {
+				n++
+				if !c.Case(n) {
+					continue
+				}
+				r := c.Rand(n)
+				k := r.Bytes(32)
+				k[0] &= 0x7f
+				lens := []int{last}
+				if first > 0 {
+					lens = []int{first, last}
+				}
+				inscr(c, &c20Inscr{ContentType: "text/plain", Data: r.Bytes(1 + r.Intn(40)), Key: k, OpReturn: true, TailLens: lens})
 			}
 		}
 		c.Phase("inscriptions-random")
